@@ -16,15 +16,15 @@ Lemma main_glwe_encrypt_sk (fam n : Z) (glwe : infos) :
   run_takes (tree_glwe_encrypt_sk fam n glwe) (0, glwe_encrypt_sk_tmp_bytes fam n glwe) <> None.
 Proof. intros Hf Hp H8. apply suffices_glwe_encrypt_sk; auto using pow2_nonneg, pow2_ge8. Qed.
 
-Lemma main_glwe_decrypt_partial (fam n : Z) (glwe : infos) :
-  is_fam fam -> pow2 n -> 8 <= n -> 0 <= i_size glwe -> 0 <= i_rank glwe -> fam = 0 \/ 2 <= i_size glwe ->
+Lemma main_glwe_decrypt (fam n : Z) (glwe : infos) :
+  is_fam fam -> pow2 n -> 8 <= n -> 0 <= i_size glwe -> 0 <= i_rank glwe ->
   run_takes (tree_glwe_decrypt fam n glwe) (0, glwe_decrypt_tmp_bytes fam n glwe) <> None.
-Proof. intros Hf Hp H8. apply suffices_glwe_decrypt_partial; auto using pow2_nonneg, pow2_ge8. Qed.
+Proof. intros Hf Hp H8. apply suffices_glwe_decrypt; auto using pow2_nonneg, pow2_ge8. Qed.
 
-Lemma main_glwe_encrypt_pk_partial (fam n : Z) (res : infos) :
-  is_fam fam -> pow2 n -> 8 <= n -> 0 <= i_size res -> 0 <= i_rank res -> fam = 0 \/ 2 <= i_size res ->
+Lemma main_glwe_encrypt_pk (fam n : Z) (res : infos) :
+  is_fam fam -> pow2 n -> 8 <= n -> 0 <= i_size res -> 0 <= i_rank res ->
   run_takes (tree_glwe_encrypt_pk fam n res (i_size res)) (0, glwe_encrypt_pk_tmp_bytes fam n res) <> None.
-Proof. intros Hf Hp H8. apply suffices_glwe_encrypt_pk_partial; auto using pow2_nonneg, pow2_ge8. Qed.
+Proof. intros Hf Hp H8. apply suffices_glwe_encrypt_pk; auto using pow2_nonneg, pow2_ge8. Qed.
 
 Lemma main_glwe_keyswitch (fam n : Z) (res a key : infos) :
   is_fam fam -> pow2 n -> 8 <= n -> wf_infos res -> wf_infos a -> wf_infos key -> i_n a = n -> i_rank a = i_rank_in key ->
@@ -54,11 +54,26 @@ Lemma main_ggsw_external_product (fam n : Z) (res a ggsw : infos) :
   run_takes (tree_ggsw_external_product fam n res a ggsw) (0, ggsw_external_product_tmp_bytes fam n res a ggsw) <> None.
 Proof. intros Hf Hp H8. apply suffices_ggsw_external_product; auto using pow2_nonneg, pow2_ge8. Qed.
 
-Lemma main_glwe_automorphism_add_partial (fam n : Z) (res a key : infos) :
+Lemma main_glwe_automorphism_add (fam n : Z) (res a key : infos) :
   is_fam fam -> pow2 n -> 8 <= n -> wf_infos res -> wf_infos a -> wf_infos key -> i_n a = n -> i_rank a = i_rank_in key ->
-  fam = 0 \/ i_base2k a = i_base2k key \/ 2 <= i_rank a * i_size (conv_layout a key) ->
   run_takes (tree_glwe_automorphism_add fam n res a key) (0, glwe_automorphism_tmp_bytes fam n res a key) <> None.
-Proof. intros Hf Hp H8. apply suffices_glwe_automorphism_add_partial; auto using pow2_nonneg, pow2_ge8. Qed.
+Proof. intros Hf Hp H8. apply suffices_glwe_automorphism_add; auto using pow2_nonneg, pow2_ge8. Qed.
+
+Lemma main_glwe_trace (fam n : Z) (res a key : infos) (steps : Z) :
+  is_fam fam -> pow2 n -> 8 <= n -> wf_infos res -> wf_infos a -> wf_infos key -> i_n res = n -> i_rank res = i_rank_in key ->
+  run_takes (tree_glwe_trace fam n res a key steps) (0, glwe_trace_tmp_bytes fam n res a key) <> None.
+Proof. intros Hf Hp H8. apply suffices_glwe_trace; auto using pow2_nonneg, pow2_ge8. Qed.
+
+Lemma main_glwe_trace_assign (fam n : Z) (res key : infos) (steps : Z) :
+  is_fam fam -> pow2 n -> 8 <= n -> wf_infos res -> wf_infos key -> i_n res = n -> i_rank res = i_rank_in key ->
+  run_takes (tree_glwe_trace_assign fam n res key steps) (0, glwe_trace_tmp_bytes fam n res res key) <> None.
+Proof. intros Hf Hp H8. apply suffices_glwe_trace_assign; auto using pow2_nonneg, pow2_ge8. Qed.
+
+Lemma main_glwe_mul_const (fam n : Z) (res a : infos) (b_len cnv_offset : Z) :
+  is_fam fam -> pow2 n -> 8 <= n -> wf_infos res -> wf_infos a -> 1 <= i_size a -> 1 <= b_len -> 0 <= cnv_offset ->
+  (if cnv_offset <? i_base2k a then 0 else Z.max 0 (cnv_offset / i_base2k a - 1)) <= i_size a + b_len ->
+  run_takes (tree_glwe_mul_const fam n res a b_len cnv_offset) (0, glwe_mul_const_tmp_bytes fam n res a b_len) <> None.
+Proof. intros Hf Hp H8. apply suffices_glwe_mul_const; auto using pow2_nonneg, pow2_ge8. Qed.
 
 Lemma align_matches : gen_DEFAULTALIGN = ALIGN.
 Proof. reflexivity. Qed.
